@@ -264,7 +264,7 @@ pub fn run(ctx: &Ctx) {
     }
     // (b) random programs, scoping profile.
     let cfg = scoping_cfg();
-    let n = ctx.n(12_000, 1_000_000);
+    let n = ctx.n(25_000, 1_000_000);
     let via = if ctx.tier == Tier::Quick { Via::Cli } else { Via::Fast };
     ctx.proptest_tapes("scoping_random", n, 700, via, None, |t| {
         let (case, rr, prog, _) = crate::props::c01::build_case("C04", "random", t, &cfg, 0, ctx, DiagLevel::None)?;
@@ -272,7 +272,7 @@ pub fn run(ctx: &Ctx) {
         Some((case, nd > 0))
     });
     // (c) rename metamorphic.
-    let n = ctx.n(5_000, 300_000);
+    let n = ctx.n(10_000, 300_000);
     ctx.proptest_tapes("rename", n, 700, via, None, |t: &mut Tape| {
         let prog = gen::gen_prog(t, &cfg);
         let rr = interp::run(&prog);
